@@ -21,17 +21,19 @@ Leaf(p) == S(<<p>>)
 IRec(p) == Rec([Name |-> Leaf(p \o ".Name")])
 \* a K without further K-valued fields (the end of a chain of Sub pointers)
 KEnd(p) == RecM([Name |-> Leaf(p \o ".Name"), Tags |-> AT(<<Leaf(p \o ".Tags[0]"), Leaf(p \o ".Tags[1]")>>, "strs"),
-                 Inner |-> IRec(p \o ".Inner"), InnerPtr |-> IRec(p \o ".InnerPtr"), NilInner |-> Nil, Sub |-> Nil],
+                 Inner |-> IRec(p \o ".Inner"), InnerPtr |-> IRec(p \o ".InnerPtr"), NilInner |-> Nil, Sub |-> Nil, M |-> M(EmptyScope)],
                 [Hello |-> Leaf(p \o ".Hello()"), Shout |-> Leaf(p \o ".Shout()")])
 \* what Twin() returns: a K whose own Twin() can be called again (the same method name chained up to three times)
 RECURSIVE KT(_, _)
 KT(p, d) == IF d = 0 THEN KEnd(p)
             ELSE RecM([Name |-> Leaf(p \o ".Name"), Tags |-> AT(<<Leaf(p \o ".Tags[0]"), Leaf(p \o ".Tags[1]")>>, "strs"),
-                       Inner |-> IRec(p \o ".Inner"), InnerPtr |-> IRec(p \o ".InnerPtr"), NilInner |-> Nil, Sub |-> Nil],
+                       Inner |-> IRec(p \o ".Inner"), InnerPtr |-> IRec(p \o ".InnerPtr"), NilInner |-> Nil, Sub |-> Nil, M |-> M(EmptyScope)],
                       [Hello |-> Leaf(p \o ".Hello()"), Shout |-> Leaf(p \o ".Shout()"), Twin |-> KT(p \o ".Twin()", d - 1)])
 KRec(p) == RecM([Name |-> Leaf(p \o ".Name"), Sub |-> KEnd(p \o ".Sub"),
                  Tags |-> AT(<<Leaf(p \o ".Tags[0]"), Leaf(p \o ".Tags[1]")>>, "strs"),
-                 Inner |-> IRec(p \o ".Inner"), InnerPtr |-> IRec(p \o ".InnerPtr"), NilInner |-> Nil],
+                 Inner |-> IRec(p \o ".Inner"), InnerPtr |-> IRec(p \o ".InnerPtr"), NilInner |-> Nil,
+                 \* (the field name M again, one level below R.M: a map of K inside K)
+                 M |-> M([b |-> KEnd(p \o ".M[b]")])],
                 [Hello |-> Leaf(p \o ".Hello()"), Shout |-> Leaf(p \o ".Shout()"), Twin |-> KT(p \o ".Twin()", 2)])
 RRec(p) == RecM([Name |-> Leaf(p \o ".Name"),
                  Kid |-> KRec(p \o ".Kid"), NilKid |-> Nil,
@@ -56,7 +58,7 @@ Data == [r |-> RRec("r"), rp |-> RRec("rp"),
          pks |-> [t |-> "pslice", xs |-> <<KRec("pks[0]"), KRec("pks[1]")>>],    \* a pointer to a slice: like a pointer to a map
          im |-> [t |-> "imap", m |-> [one |-> KRec("im[1]")]],                  \* map[int]K with the key 1
          pm |-> PMap([a |-> KRec("pm[a]")]), pms |-> A(<<PMap([a |-> KRec("pms[0][a]")])>>),
-         i0 |-> I(0), i1 |-> I(1), i9 |-> I(9), ka |-> S(<<"a">>), kz |-> S(<<"z", "z">>)]
+         i0 |-> I(0), i1 |-> I(1), i9 |-> I(9), imax |-> I(2147483647), ka |-> S(<<"a">>), kz |-> S(<<"z", "z">>)]
 Roots == {"r", "rp", "rs", "rm", "k", "ks", "ta", "tb", "pks", "pm", "pms", "im"}
 
 Unexported == "secret"
@@ -77,7 +79,13 @@ RevisitProg(nm, how) ==
   IF how = "loop" THEN <<Emit(For("", "j", Arr(<<IntL(0), IntL(1)>>), <<Text(<<"(">>), Emit(RevisitPaths[nm]), Text(<<")">>)>>))>>
   ELSE <<Let("j", IntL(0)), Text(<<"(">>), Emit(RevisitPaths[nm]), Text(<<")">>), Code(Assign("j", IntL(1))), Text(<<"(">>), Emit(RevisitPaths[nm]), Text(<<")">>)>>
 
+\* walks that start deep inside the graph (the path spelled so far is part of the case: the same field name M occurs in it
+\* at two depths already)
+DeepStarts == { [e |-> Idx(Dot(Idx(Dot(Id("r"), "M"), Str(<<"a">>)), "M"), Str(<<"b">>)), v |-> KEnd("r.M[a].M[b]")],
+                [e |-> Idx(Dot(Idx(Id("rs"), IntL(1)), "M"), Str(<<"b">>)), v |-> KRec("rs[1].M[b]")],
+                [e |-> Dot(Idx(Dot(Idx(Id("rm"), Str(<<"a">>)), "M"), Str(<<"a">>)), "M"), v |-> M([b |-> KEnd("rm[a].M[a].M[b]")])] }
 Init == \/ \E x \in Roots : e = Id(x) /\ v = Data[x] /\ n = 0 /\ fam = "walk"
+        \/ \E d \in DeepStarts : e = d.e /\ v = d.v /\ n = 0 /\ fam = "walk"
         \/ \E nm \in DOMAIN RevisitPaths, how \in {"loop", "assign"} : e = RevisitPaths[nm] /\ v = Failed /\ n = 0 /\ fam = nm \o ":" \o how
 
 \* one more navigation step from a value
@@ -100,6 +108,8 @@ Extend ==
   /\ \/ v.t = "rec" /\ \E f \in DOMAIN v.f \cup {"Nope", Unexported} : FieldStep(f)
      \/ v.t = "rec" /\ \E m \in DOMAIN v.m \cup {"Nope"} : CallStep(m)
      \/ v.t = "nil" /\ FieldStep("Name")
+     \* the largest int as an index (literal and variable): out of range like any other
+     \/ v.t = "arr" /\ (IndexStep(MaxIntLit, 2147483647) \/ IndexStep(Id("imax"), 2147483647))
      \/ v.t = "arr" /\ \/ \E k \in 0..2 : IndexStep(IntL(k), k)
                        \/ IndexStep(Id("i0"), 0) \/ IndexStep(Id("i1"), 1) \/ IndexStep(Id("i9"), 9)
      \/ v.t = "pslice" /\ (IndexStep(IntL(0), 0) \/ IndexStep(Id("i1"), 1) \/ IndexStep(Id("i9"), 9))
@@ -110,6 +120,7 @@ Extend ==
                         \/ (e' = Idx(e, IntL(2)) /\ v' = Nil)
                         \/ WrongKeyStep(Flt(3, 1)) \/ WrongKeyStep(Str(<<"1">>))
      \/ v.t = "pmap" /\ (KeyStep(Str(<<"a">>), "a") \/ KeyStep(Id("ka"), "a") \/ FieldStep("Name"))
+     \/ v.t = "map" /\ KeyStep(Str(<<"b">>), "b")
      \/ v.t = "map" /\ \/ KeyStep(Str(<<"a">>), "a") \/ KeyStep(Str(<<"z", "z">>), "zz")
                        \/ KeyStep(Id("ka"), "a") \/ KeyStep(Id("kz"), "zz")
 Spec == Init /\ [][Extend]_vars
